@@ -1,13 +1,14 @@
 #!/bin/bash
 # usage: tools/run_seeded.sh [names...]  -- run every seeded change against the checks that should catch it (quick tier)
 cd "$(dirname "$0")/.."
-declare -A EXTRA=( [C02-m1]="C10" [C16-m2]="C09" [C03-m1]="C04 C03" [C04-m1]="C04 C03" [C09-m2]="C09 C06" [C06-m2]="C06 C01" [C01-m1]="C01 C06" [C01-m4]="C01 C08" [C03-m4]="C02 C10" [C15-m4]="C15 C08" )
+declare -A EXTRA=( [C02-m1]="C10" [C16-m2]="C09" [C03-m1]="C04 C03" [C04-m1]="C04 C03" [C09-m2]="C09 C06" [C06-m2]="C06 C01" [C01-m1]="C01 C06" [C01-m4]="C01 C08" [C03-m4]="C02 C10" [C15-m4]="C15 C08" [C01-m6]="C01 C05" [C03-m6]="C03 C02" [C08-m5]="C08 C10" [C10-m5]="C10 C08" [C04-m6]="C04:thorough" )
 NAMES="${@:-$(ls seeded)}"
 for name in $NAMES; do
   prop=$(echo $name | cut -d- -f1)
   checks="${EXTRA[$name]:-$prop}"
   for id in $checks; do
-    res=$(TAIL=40 tools/try_patch.sh seeded/$name/patch.diff $id quick 2>&1)
+    tier=quick; case "$id" in *:*) tier="${id#*:}"; id="${id%%:*}";; esac
+    res=$(TAIL=40 tools/try_patch.sh seeded/$name/patch.diff $id $tier 2>&1)
     rc=$(echo "$res" | grep "^exit=" | cut -d= -f2)
     nv=$(echo "$res" | grep -c "^VIOLATION")
     echo "$name $id exit=$rc violations=$nv"
